@@ -37,7 +37,7 @@ ASSUMPTIONS = [
     "nothing is demanded about when within the call sequence a frame is returned",
     "check-sequence accessors may present the two octets as bytes or as an integer in either octet order",
 ]
-MUST_FIRE = {"quick": ["cut_after_escape", "max_size_frame", "header_only_frame", "leading_noise"], "thorough": ["cut_after_escape", "max_size_frame", "header_only_frame", "leading_noise", "extra_escaped_octets"]}
+MUST_FIRE = {"quick": ["cut_after_escape", "max_size_frame", "header_only_frame", "leading_noise", "bystander_reader_instance", "chunks_as_bytearray"], "thorough": ["cut_after_escape", "max_size_frame", "header_only_frame", "leading_noise", "extra_escaped_octets"]}
 
 
 def gen(rng, tier, index):
@@ -58,7 +58,13 @@ def gen(rng, tier, index):
     for s in spans:
         if s["t"] == "frame":
             hot.append(s["start"] + hdlc_gen.header_len(items[s["i"]]))
-    yield {"cfg": [stuffing, abort], "items": items, "cuts": fragment.draw(rng, len(wire), hot)}
+    sc = {"cfg": [stuffing, abort], "items": items, "cuts": fragment.draw(rng, len(wire), hot)}
+    if rng.random() < 0.15:
+        # a second connection in the same process: another reader instance fed other traffic in between
+        other_cfg = list(rng.choice(hdlc_gen.CONFIGS))
+        other = hdlc_gen.rand_bytes(rng, rng.randint(20, 300), 0.3) + b"\x7e" + hdlc_gen.build(hdlc_gen.frame_fields(rng, small=True))[: rng.randint(3, 30)]
+        sc["bystander"] = {"cfg": other_cfg, "wire": other.hex()}
+    yield sc
 
 
 def execute(sc):
@@ -73,7 +79,8 @@ def execute(sc):
         if st[1]:
             probes["cut_after_escape"] = probes.get("cut_after_escape", 0) + 1
 
-    fed = reader_rig.feed(reader, wire, sc["cuts"], probe)
+    by = sc.get("bystander")
+    fed = reader_rig.feed(reader, wire, sc["cuts"], probe, (reader_rig.make_reader("hdlc", tuple(by["cfg"])), bytes.fromhex(by["wire"])) if by else None)
     sent = [(s, sc["items"][s["i"]]) for s in spans if s["t"] in ("frame", "rawframe")]
     viol = []
     in_domain = all(it["t"] == "frame" and hdlc_gen.in_c02_domain(s["octets"], it, stuffing, abort) for s, it in sent)
@@ -141,6 +148,10 @@ def execute(sc):
         probes["leading_noise"] = 1
     if any(it.get("extra_esc") for _, it in sent):
         probes["extra_escaped_octets"] = 1
+    if by:
+        probes["bystander_reader_instance"] = 1
+    if sc["cuts"].get("as"):
+        probes["chunks_as_bytearray"] = 1
     probes[f"cfg_{int(stuffing)}{int(abort)}"] = 1
     probes[f"frag_{sc['cuts']['m']}"] = 1
     return {
@@ -167,6 +178,8 @@ def summarise(sc, wire=None, returned=None):
 
 def candidates(sc):
     items = sc["items"]
+    if sc.get("bystander"):
+        yield {k: v for k, v in copy.deepcopy(sc).items() if k != "bystander"}
     for red in shrink.list_reductions(items):
         yield dict(copy.deepcopy(sc), items=red)
     if sc["cuts"]["m"] == "list":
